@@ -39,7 +39,7 @@ ODD == <<P("world", "A", 1), P("A", "A", 1), P("A", "B", 0), P("A", "B", 1)>>
 
 \* C02: racing for the 3 units on A, source named in every way a script can; revert of the funding tx
 PalFunds == <<Create(AB, "lit"), Create(AC, "var"), Create(PB, "meta"), Create(AC, "allot"), Create(AC, "max"), Create(AC, "seq"),
-              Revert(0, FALSE), SetAcct("M", "C")>>
+              Create(AB, "bal"), CreateOd(A2), Revert(0, FALSE), SetAcct("M", "C")>>
 \* C11: one reference, disjoint sources, competitor succeeding or failing
 PalRef == <<CreateRef(WB, "r1"), CreateRef(WC, "r1"), CreateRef(A2, "r1"), CreateRef(AB, "r2")>>
 \* C07: duplicates of one key, of each kind, and retries after a restart
